@@ -76,6 +76,8 @@ def c25(ctx):
                            "written_len": len(buf), "expected": rec.get("expect"),
                            "problems": [list(p) for p in probs[:5]]}})
             v["count"] += 1
+    if not os.environ.get("VERIF_KEEP"):
+        os.remove(path)  # can be several GB in the thorough tier
     merged["violations"] += list(viol.values())
     merged["evaluations"] += n
     merged["counters"]["ps38_parser_validated"] = n
